@@ -7,6 +7,17 @@ Design level : exhaustive TLC on the toy worlds ("two": default priors; "mixed":
                classes, "NaNAll" (NaN in every bin, no exception), "NaNSome"; four expected counterexamples
                (chi2 == 0 reported as NaN -- the as-built behaviour, ledger L-C06 --, a narrowed except clause,
                update_model exponentiating by the parameter's mode, an all-NaN model scored as chi2 = 0).
+               World "obs": two fitted parameters live on the OBSERVATION (offset, scale; compile_params appends them after
+               the model's) -- the data side of chi2 follows the vector of THIS call; expected counterexamples: a copy of
+               the observed spectrum captured when compute_fit starts, a copy read before update_model (one call late).
+               spec/LikeGrid.tla + MC_LikeGrid.tla (on top of Grid.tla of C13): native grid much wider than the
+               observation, layout families (constant resolving power with widths growing / shrinking up to 9x, gaps,
+               broad photometric bins next to narrow ones, two instruments), the clipping contract (the native points
+               handed to the binner cover every observation bin) and the margin rule of the code; expected
+               counterexamples: margin of the first / last / narrowest bin, half the widest; overlapping broad bins
+               reaching beyond the window (design-level finding).
+Binding A    : every layout TLC generates is realised (real SimpleForwardModel.model incl. its clip, real BaseSpectrum ->
+               real FluxBinner, the three wrappers) and compared with the chi2 terms TLC computed on the FULL native grid.
 Binding C    : TLC-simulated behaviours (sequences of prior / loglike calls with natural and injected
                invalid models) replayed on the callbacks the real NestleOptimizer, MultiNestOptimizer and
                PolyChordOptimizer hand to recording doubles of nestle.sample, pymultinest.run and
@@ -14,7 +25,11 @@ Binding C    : TLC-simulated behaviours (sequences of prior / loglike calls with
 Binding B    : random call sequences on real TransmissionModels (isothermal / N-point, H2O+CH4) with real
                ArraySpectrum observations (random bin layouts and error bars), all four prior classes;
                every call validated by TLC (Trace_Likelihood) + sharp 1e-9 comparison against a second,
-               independently driven model instance; canary.
+               independently driven model instance; canaries.  A third of the traces live in a WIDE world (800-point
+               constant-R native grid, observations: constant R over 0.4-12 micron, gaps, photometric bands, two
+               instruments; oracle = FULL native grid + independent overlap-weighted mean); 40% of the traces fit
+               parameters of the observation (offset [ppm], scale): the trace specification fixes the data side of every
+               call from the vector of that call (DataOk).
 """
 import math
 import random
